@@ -202,6 +202,68 @@ def main():
             fail('a string does not match its own escaped form', string=s)
         if ev('isRegex($s)', s=s) is not False:
             fail('isRegex(string) is not false', string=s)
+    # host strings of a str SUBCLASS that overrides the str methods (a
+    # markup-safe text type): a string function works on the characters,
+    # whatever the host's class does in its own methods
+    class Safe(str):
+        def _esc(self, x):
+            return x.replace('<', '&lt;') if isinstance(x, str) else x
+
+        def replace(self, a, b, *r):
+            return Safe(str.replace(self, self._esc(a), self._esc(b), *r))
+
+        def find(self, a, *r):
+            return str.find(self, self._esc(a), *r)
+
+        def index(self, a, *r):
+            return str.index(self, self._esc(a), *r)
+
+        def startswith(self, a, *r):
+            return str.startswith(self, self._esc(a), *r)
+
+        def endswith(self, a, *r):
+            return str.endswith(self, self._esc(a), *r)
+
+        def strip(self, chars=None):
+            return Safe(str.strip(self, self._esc(chars)))
+
+        def upper(self):
+            return Safe('!' + str.upper(self))
+
+        def lower(self):
+            return Safe('!' + str.lower(self))
+
+        def split(self, sep=None, maxsplit=-1):
+            return [Safe('!')]
+
+        def join(self, items):
+            return Safe('!')
+
+        def __len__(self):
+            return 99
+    for text in ('a<b-c<d', '<<x>>', ''):
+        for expr in ("$s.replace('-', '<')", "$s.indexOf('<')",
+                     "$s.startsWith('<')", "$s.endsWith('d')",
+                     "$s.trim('<>')", '$s.toUpper()', '$s.toLower()',
+                     "$s.split('<')", "$s.join(['p', 'q'])", '$s.len()',
+                     "$s.lastIndexOf('<')", "$s.substring(1, 2)",
+                     "$s + 'x'", '$s * 2', "$s.replace({'<' => '('})",
+                     "'<'.join([$s, $s])", "$s.matches('a.*')",
+                     "$s =~ '^a<'", "$s.replaceBy(regex('<'), '(')"):
+            cases += 1
+            try:
+                got = ('ok', ev(expr, s=Safe(text)))
+            except Exception as e:      # noqa
+                got = ('err', type(e).__name__)
+            try:
+                exp = ('ok', ev(expr, s=str(text)))
+            except Exception as e:      # noqa
+                exp = ('err', type(e).__name__)
+            if got != exp or (got[0] == 'ok' and type(got[1]) is not type(
+                    exp[1])):
+                fail('a host string of a str subclass does not behave as '
+                     'the plain string with the same characters',
+                     expression=expr, string=text, got=got, expected=exp)
     print(json.dumps(dict(status='ok', cases=cases)))
 
 
